@@ -31,7 +31,7 @@ RULE = ("one evaluation = one seeded history (<= 14 operations, <= 18 files in 3
         "separately, and compared with the model. non-trivial = >= 1 referrer produced and >= 1 comparison; distinct = distinct "
         "event-log digests")
 STATE_MEASURE = "distinct (producer, chain depth, mapping kind, feature kind, access kind / file-system situation) tuples"
-PROBES = ["chain_depth_3", "chain_depth_4", "child_export", "child_export_of_basin_file", "basin_only_export", "export_with_stored",
+PROBES = ["child_reexported_after_equal_count_reselection", "result_mutated_in_place", "result_read_only", "chain_depth_3", "chain_depth_4", "child_export", "child_export_of_basin_file", "basin_only_export", "export_with_stored",
           "unfiltered_export", "box_filter", "map_superset", "map_permutation", "map_crosses_chunk", "two_basins", "two_basins_shared_map",
           "internal_basin", "explicit_mapname", "basin_feats_restricted", "precedence_checked", "moved_together",
           "moved_ref_only", "abs_location_still_resolves", "origin_deleted", "origin_renamed", "origin_replaced",
@@ -71,7 +71,7 @@ TRACES = ["fl1_median", "fl1_raw"]
 NDIRS = 3
 MAX_FILES = 14
 MAX_EVENTS = 120
-ACCESS = ["int", "negint", "slice", "slice_step", "boolmask", "intarray", "full", "asarray2", "len", "dtype_first"]
+ACCESS = ["int", "negint", "slice", "slice_step", "boolmask", "intarray", "full", "asarray2", "len", "dtype_first", "mutate"]
 
 
 def plan(tier):
@@ -432,7 +432,7 @@ class World:
             if deep:
                 i = max(deep, key=lambda j: (self.files[j].depth, j))
         if x < 0.30:
-            return {"k": "export", "src": i, "depth": r.choice([0, 0, 0, 1, 1, 2]), "mseed": r.randrange(1 << 30),
+            return {"k": "export", "src": i, "depth": r.choice([0, 0, 0, 1, 1, 2]), "mseed": r.randrange(1 << 30), "again": r.random() < 0.5,
                     "filtered": r.random() < 0.8, "feats": r.choice(["none", "none", "some", "some", "all"]),
                     "box": r.random() < 0.25, "dir": r.choice([-1, -1, -1, 0, 1, 2]), "p": r.choice([0.3, 0.6, 0.9])}
         if x < 0.55:
@@ -485,6 +485,8 @@ class World:
         pr = seeds.rng(op["mseed"], "export")
         depth = int(op["depth"])
         filtered = bool(op["filtered"])
+        if op.get("again") and depth == 1 and op["mseed"] % 2:
+            filtered = False    # (the re-export scenario needs a child without filters of its own)
         avail = [f for f in ALLF if self.cands(S, f, must=True)]
         if op["feats"] == "none":
             feats = []
@@ -495,6 +497,10 @@ class World:
         d = S.path.parent if op["dir"] < 0 else self.dirs[op["dir"] % NDIRS]
         P = self.new_file(0, "e", "export", None, 0)
         P.path = d / P.path.name
+        P2 = None
+        if op.get("again") and depth == 1 and not filtered:
+            P2 = self.new_file(0, "e", "export", None, 0)
+            P2.path = d / P2.path.name
         src_basins = "none" if not S.basins else ("mapped" if any(B["map"] is not None for B in S.basins) else "same")
         facts = {"why": "export_child" if depth else "export", "filtered": filtered, "src_basins": src_basins}
         if self.has_noid(S):
@@ -558,6 +564,17 @@ class World:
                 state["sel"] = sel
                 state["masks"] = seeds.short_hash(sel)
                 cur.export.hdf5(P.path, features=feats, filtered=filtered, basins=True)
+                if op.get("again") and depth == 1 and not filtered and 0 < len(sel) < S.n:
+                    # the parent selects other events, equally many; the same child object is refreshed and exported again
+                    m2 = np.zeros(S.n, dtype=bool)
+                    m2[sel] = True
+                    on, off = np.flatnonzero(m2), np.flatnonzero(~m2)
+                    m2[on[int(rs.integers(0, len(on)))]] = False
+                    m2[off[int(rs.integers(0, len(off)))]] = True
+                    ds.filter.manual[:] = m2
+                    cur.rejuvenate()
+                    state["sel2"] = np.flatnonzero(m2)
+                    cur.export.hdf5(P2.path, features=feats, filtered=filtered, basins=True)
                 # the exported dataset object stays in use: exporting must not change what it delivers
                 reuse = {}
                 for f in SCAL:
@@ -585,8 +602,9 @@ class World:
         sel = state.get("sel")
         ctx.log("w", f"export {S.name}->{P.name} depth={depth} filtered={filtered} feats={feats} box={state.get('box')}", state.get("masks"))
         if status != "ok":
-            if P.path.exists():
-                P.path.unlink()
+            for Q in (P, P2):
+                if Q is not None and Q.path.exists():
+                    Q.path.unlink()
             ctx.log("w", "export failed")
             return
         # the source object after the export (same open dataset): every feature it must deliver is still delivered
@@ -603,6 +621,15 @@ class World:
                                                        f"from the origin data at the mapped events", dict(facts, feat="scalar", what="changed"))
             ctx.probe("source_reused_after_export")
         mapped = filtered or depth > 0
+        products = [(P, sel)]
+        if P2 is not None and state.get("sel2") is not None and P2.path.exists():
+            products.append((P2, state["sel2"]))
+            ctx.probe("child_reexported_after_equal_count_reselection")
+        for P, sel in products:
+            self.register_export(P, S, sel, feats, facts, mapped, filtered, depth, src_basins)
+
+    def register_export(self, P, S, sel, feats, facts, mapped, filtered, depth, src_basins):
+        ctx = self.ctx
         P.n = len(sel)
         P.rid = self.read_rid(P.path)
         P.depth = S.depth + 1
@@ -1187,6 +1214,7 @@ class World:
             index = np.sort(rs.choice(n, size=k, replace=False))
         else:
             index = slice(None)
+        mut_i = int(rs.integers(0, n)) if acc == "mutate" else None
         if acc == "dtype_first" and fkind(f) != "scalar":
             acc = "full"     # a lossy dtype on first access only makes sense for scalar features
         twice = (0, 1)
@@ -1220,6 +1248,21 @@ class World:
                             out[nm] = [[np.asarray(o[i]) for i in range(n)] for _ in twice]
                         else:
                             out[nm] = [np.array(np.asarray(o)) for _ in twice]
+                    elif acc == "mutate":
+                        # one event is read and the caller writes into what it got; everything read afterwards must still be
+                        # the origin's data
+                        first = o[mut_i]
+                        try:
+                            arr = np.asarray(first)
+                            arr[...] = 0
+                            if arr.size and np.asarray(first).flat[0] == 0:
+                                ctx.probe("result_mutated_in_place")
+                        except (ValueError, TypeError):
+                            ctx.probe("result_read_only")
+                        if f == "contour":
+                            out[nm] = [np.asarray(c) for c in o[index]]
+                        else:
+                            out[nm] = np.asarray(o[index])
                     elif f == "contour" and acc in ("int", "negint"):
                         out[nm] = np.asarray(o[index])
                     elif f == "contour":
